@@ -23,7 +23,7 @@ func init() {
 		Run: ruleSameSnapshot,
 	})
 	register(&Rule{
-		ID: "NEXT-SHAPE", Props: []string{"C07", "C08"}, Floor: 8,
+		ID: "NEXT-SHAPE", Props: []string{"C07", "C08", "C19"}, Default: []string{"C07", "C08"}, Floor: 8,
 		Doc: "changeIterator.Next returns (it.watch, empty sequence) only when no iterator is pending, else refreshes and returns (closed channel, delivering sequence); the delivering sequence advances revision/deleteRevision and marks the tracker with exactly the revision of the change it is about to yield, before yielding, and clears the iterator only when exhausted",
 		Run: ruleNextShape,
 	})
@@ -278,6 +278,39 @@ func ruleNextShape(c *Ctx, r *Reporter) {
 	if refresh == nil {
 		r.bad(name+"|refresh", c.posStr(fn.Pos()), "Next does not call refresh")
 		return
+	}
+	// "nothing new" is decided from the snapshot that was passed in: the return of the remembered
+	// (open) watch channel with an empty sequence happens only where that channel was compared
+	// with the root watch of the snapshot's revision index. The channel alone proves nothing - it is
+	// closed only after the new root has been stored.
+	for _, ret := range returnsOf(fn) {
+		if _, ok := loadOfField(ret.Results[1], "changeIterator", "watch"); !ok {
+			continue
+		}
+		fromSnapshot := false
+		for _, f := range factsAt(ret.Block()) {
+			bo, ok := f.Cond.(*ssa.BinOp)
+			if !ok || bo.Op != token.EQL || !f.Val {
+				continue
+			}
+			for _, pair := range [][2]ssa.Value{{bo.X, bo.Y}, {bo.Y, bo.X}} {
+				call, ok := pair[0].(*ssa.Call)
+				if !ok || !call.Call.IsInvoke() || call.Call.Method.Name() != "rootWatch" {
+					continue
+				}
+				if _, ok := loadOfField(pair[1], "changeIterator", "watch"); ok {
+					// the index is read from committedRoot() of the transaction passed in
+					prov := false
+					for _, ia := range allInstrs(fn) {
+						if cr, ok := ia.In.(*ssa.Call); ok && cr.Call.IsInvoke() && cr.Call.Method.Name() == "committedRoot" && cr.Call.Value == ssa.Value(fn.Params[1]) && instrDominates(cr, call) {
+							prov = true
+						}
+					}
+					fromSnapshot = prov
+				}
+			}
+		}
+		r.checkP([]string{"C07", "C19"}, fromSnapshot, name+"|'nothing new' is decided from the snapshot", c.posStr(instrPos(ret)), "the open channel is returned only when the snapshot still has the revision index it belongs to", "an exhausted iterator answers 'nothing new' from its remembered watch channel alone: Commit closes that channel only after storing the new root, so Next(snapshot) taken in between returns no changes although the snapshot has them (Derive then marks its output table initialized before the objects are derived)")
 	}
 	var deliver *ssa.Function
 	nRet := 0
@@ -724,41 +757,60 @@ func ruleGCScan(c *Ctx, r *Reporter) {
 	if nmu == 0 {
 		r.anchorMissing("toBeDeleted[...] update in graveyardWorker")
 	}
-	// the write transaction covers exactly the collected tables
+	// the collector locks one table at a time, and only tables with collected keys: every WriteTxn
+	// takes a single table, the key of the iteration over toBeDeleted it sits in
 	goodW := false
+	why := "no WriteTxn found in the collector"
 	var wpos token.Pos = fn.Pos()
 	for _, call := range c.callsNamed(fn, "statedb.(DB).WriteTxn") {
 		wpos = call.Pos()
-		// argument derives from maps.Keys(toBeDeleted)
-		seen := map[ssa.Value]bool{}
-		var walk func(v ssa.Value, d int) bool
-		walk = func(v ssa.Value, d int) bool {
-			if v == nil || seen[v] || d > 8 {
-				return false
-			}
-			seen[v] = true
-			if call, ok := v.(*ssa.Call); ok {
-				if f := staticCallee(call); f != nil && extFnName(f) == "maps.Keys" {
-					return true
-				}
-				for _, a := range call.Call.Args {
-					if walk(a, d+1) {
-						return true
-					}
-				}
-			}
-			if s, ok := v.(*ssa.Slice); ok {
-				return walk(s.X, d+1)
-			}
-			return false
+		goodW = false
+		args := call.Common().Args
+		if len(args) != 2 {
+			why = "unexpected WriteTxn call shape"
+			break
 		}
-		for _, a := range call.Common().Args[1:] {
-			if walk(a, 0) {
-				goodW = true
-			}
+		sl, ok := args[1].(*ssa.Slice)
+		if !ok {
+			why = "the collector opens one write transaction on a computed set of tables: acquiring several table locks holds those already taken while waiting for a busy one, so a writer that keeps table a open makes the collector sit on the lock of an unrelated table b and WriteTxn(b) waits for the writer of a"
+			break
 		}
+		arr, ok := sl.X.(*ssa.Alloc)
+		if !ok {
+			why = "the collector opens one write transaction on a computed set of tables: acquiring several table locks holds those already taken while waiting for a busy one, so a writer that keeps table a open makes the collector sit on the lock of an unrelated table b and WriteTxn(b) waits for the writer of a"
+			break
+		}
+		if n := arr.Type().(*types.Pointer).Elem().Underlying().(*types.Array).Len(); n != 1 {
+			why = fmt.Sprintf("the collector's write transaction takes %d tables at once", n)
+			break
+		}
+		sts := storesToElems(fn, arr)
+		if len(sts) != 1 {
+			why = "unexpected WriteTxn argument"
+			break
+		}
+		ex, ok := sts[0].Val.(*ssa.Extract)
+		if !ok || ex.Index != 1 {
+			why = "the table locked by the collector is not the key of the iteration over the collected keys"
+			break
+		}
+		nx, ok := ex.Tuple.(*ssa.Next)
+		if !ok {
+			why = "the table locked by the collector is not the key of the iteration over the collected keys"
+			break
+		}
+		rg, ok := nx.Iter.(*ssa.Range)
+		if !ok {
+			why = "the table locked by the collector is not the key of the iteration over the collected keys"
+			break
+		}
+		if _, isMap := rg.X.Type().Underlying().(*types.Map); !isMap {
+			why = "the collector does not iterate the map of collected keys"
+			break
+		}
+		goodW = true
 	}
-	r.checkP([]string{"C10", "C08"}, goodW, name+"|write txn over collected tables only", c.posStr(wpos), "the collector's WriteTxn takes exactly the keys of toBeDeleted", "the collector's write transaction is not opened on exactly the tables with collected keys: it delays writers of unrelated tables")
+	r.checkP([]string{"C10", "C08"}, goodW, name+"|write txn over collected tables only", c.posStr(wpos), "each WriteTxn of the collector locks the one table whose collected keys it deletes", "the collector's locking delays writers of unrelated tables: "+why)
 }
 
 func ruleGraveyardRefs(c *Ctx, r *Reporter) {
